@@ -100,8 +100,9 @@ Suffixed(n, domain, search) ==
     IN SelectSeq(all, Representable)
 
 \* the ordered list of fully qualified names to try.  The documentation does not mention
-\* duplicates; asking a name again cannot change anything, so the list is given without them
-\* (first position counts) and observers ignore repeated questions.
+\* duplicates; asking a name again yields the same answer, so the list is given without them
+\* (first position counts) and observers ignore repeated questions (for the one thing a
+\* repeated try can change -- which failure is seen last -- see Plan).
 Candidates(n, ndots, domain, search, rules) ==
     IF n.fqdn THEN <<n.labels>>
     ELSE LET asis == <<n.labels>>
